@@ -407,7 +407,20 @@ func probesFor(ops []nsOp) []uint32 {
 	}
 	sort.Slice(out, func(i, j int) bool { return out[i] < out[j] })
 	if len(out) > 40 {
-		out = out[:40]
+		// long sets: keep both ends of the number space (the 16 smallest, the 16 largest, which
+		// include 2^32-3..2^32-1) and 8 evenly spaced probes in between
+		mid := out[16 : len(out)-16]
+		keep := append([]uint32(nil), out[:16]...)
+		for k := 0; k < 8; k++ {
+			keep = append(keep, mid[k*len(mid)/8])
+		}
+		keep = append(keep, out[len(out)-16:]...)
+		out = keep[:0]
+		for i, v := range keep {
+			if i == 0 || v != keep[i-1] {
+				out = append(out, v)
+			}
+		}
 	}
 	return out
 }
@@ -643,12 +656,173 @@ func (r *c15Run) randOp() nsOp {
 	}
 }
 
+// longOps builds an operation sequence that makes a set of many entries (10 and more disjoint,
+// non-adjacent ranges laid out with a stride, low in the number space or right below 2^32-1),
+// inserted one by one and/or through AddSet arguments of many ranges, in ascending or shuffled
+// order, with '*' or 'n:*' somewhere along the way, followed by a few wide insertions whose
+// endpoints sit next to existing entries, at the uint32 boundary or at '*' (so that they absorb
+// long runs of entries). The AddSet arguments are canonical by construction.
+func (r *c15Run) longOps() []nsOp {
+	rng := r.h.Rng
+	n := 10 + rng.Intn(r.h.Pick(16, 40))
+	stride := []uint32{2, 3, 5, 10}[rng.Intn(4)]
+	base := uint32(1 + rng.Intn(4))
+	if rng.Intn(4) == 0 {
+		base = max32 - uint32(n)*stride - uint32(rng.Intn(4))
+	}
+	var ents [][2]uint32
+	for i := 0; i < n; i++ {
+		lo := base + uint32(i)*stride
+		hi := lo
+		if stride > 2 && rng.Intn(3) == 0 {
+			hi = lo + uint32(rng.Intn(int(stride)-1))
+		}
+		ents = append(ents, [2]uint32{lo, hi})
+	}
+	top := ents[n-1][1]
+	switch rng.Intn(4) {
+	case 0: // lone '*'
+		ents = append(ents, [2]uint32{0, 0})
+	case 1: // n:* above everything
+		if top < max32-8 {
+			ents = append(ents, [2]uint32{top + 2 + uint32(rng.Intn(6)), 0})
+		} else {
+			ents = append(ents, [2]uint32{0, 0})
+		}
+	case 2: // '*' comes with the wide insertions, if at all
+	}
+	if rng.Intn(2) == 0 {
+		rng.Shuffle(len(ents), func(i, j int) { ents[i], ents[j] = ents[j], ents[i] })
+	}
+	var ops []nsOp
+	for len(ents) > 0 {
+		k := 1
+		if rng.Intn(3) > 0 {
+			k = 1 + rng.Intn(20)
+		}
+		if k > len(ents) {
+			k = len(ents)
+		}
+		chunk := append([][2]uint32(nil), ents[:k]...)
+		ents = ents[k:]
+		if k == 1 && rng.Intn(4) > 0 {
+			e := chunk[0]
+			switch {
+			case e[0] == e[1]:
+				ops = append(ops, nsOp{Kind: "num", A: e[0]})
+			case rng.Intn(2) == 0:
+				ops = append(ops, nsOp{Kind: "range", A: e[1], B: e[0]})
+			default:
+				ops = append(ops, nsOp{Kind: "range", A: e[0], B: e[1]})
+			}
+			continue
+		}
+		// a canonical argument: ascending, the dynamic entry last
+		sort.Slice(chunk, func(i, j int) bool {
+			a, b := chunk[i], chunk[j]
+			if (a[1] == 0) != (b[1] == 0) {
+				return b[1] == 0
+			}
+			return a[0] < b[0]
+		})
+		ops = append(ops, nsOp{Kind: "set", Set: chunk})
+	}
+	// wide insertions
+	near := func() uint32 {
+		o := ops[rng.Intn(len(ops))]
+		v := o.A
+		if o.Kind == "set" {
+			v = o.Set[rng.Intn(len(o.Set))][rng.Intn(2)]
+		} else if o.Kind == "range" && rng.Intn(2) == 0 {
+			v = o.B
+		}
+		if v == 0 {
+			return 0
+		}
+		switch rng.Intn(3) {
+		case 0:
+			if v > 1 {
+				v--
+			}
+		case 1:
+			if v < max32 {
+				v++
+			}
+		}
+		return v
+	}
+	far := func() uint32 {
+		switch rng.Intn(6) {
+		case 0:
+			return 0
+		case 1, 2:
+			return max32
+		case 3:
+			return max32 - 1 - uint32(rng.Intn(2))
+		default:
+			return near()
+		}
+	}
+	for k := 1 + rng.Intn(3); k > 0; k-- {
+		a, b := near(), far()
+		if rng.Intn(2) == 0 {
+			a, b = b, a
+		}
+		switch rng.Intn(4) {
+		case 0:
+			ops = append(ops, nsOp{Kind: "num", A: a})
+		case 1:
+			var t shim.NumSet
+			t.AddRange(a, b)
+			o := nsOp{Kind: "set"}
+			for _, x := range t {
+				o.Set = append(o.Set, [2]uint32{x.Start, x.Stop})
+			}
+			ops = append(ops, o)
+		default:
+			ops = append(ops, nsOp{Kind: "range", A: a, B: b})
+		}
+	}
+	return ops
+}
+
+// opsText renders an operation sequence as the sequence-set text that lists the same values.
+func opsText(ops []nsOp) string {
+	e := func(v uint32) string {
+		if v == 0 {
+			return "*"
+		}
+		return strconv.FormatUint(uint64(v), 10)
+	}
+	var parts []string
+	one := func(a, b uint32) {
+		if a == b {
+			parts = append(parts, e(a))
+		} else {
+			parts = append(parts, e(a)+":"+e(b))
+		}
+	}
+	for _, o := range ops {
+		switch o.Kind {
+		case "num":
+			one(o.A, o.A)
+		case "range":
+			one(o.A, o.B)
+		default:
+			for _, x := range o.Set {
+				one(x[0], x[1])
+			}
+		}
+	}
+	return strings.Join(parts, ",")
+}
+
 func runC15(h *H) {
 	imports := []string{"From GoImap.Base Require Import Bytes.", "From GoImap.Model Require Import NumSet NumSetCorr."}
 	r := &c15Run{h: h}
 	r.corr = h.NewCorr("ops", imports, "ops_mismatches", 400).Type("ops_case")
 	r.pcorr = h.NewCorr("parse", imports, "parse_mismatches", 1500).Type("parse_case")
-	h.Rule("op sequences (AddNum/AddRange/AddSet) on imapnum.Set, imap.SeqSet and imap.UIDSet: corpus, exhaustive over endpoints {*,1,2,3,5,2^32-2,2^32-1} up to the tier's length, seeded random up to 40 ops; ParseSet on all strings over {0,1,9,:,,,*} up to the tier's length plus corpus and mutated valid sets. Non-trivial = an insertion merged or split ranges (range count did not grow by the number of ranges inserted), or a valid parse input with ':' or ','; distinct by (flavour, ops) / text.")
+	h.Rule("op sequences (AddNum/AddRange/AddSet) on imapnum.Set, imap.SeqSet and imap.UIDSet: corpus, exhaustive over endpoints {*,1,2,3,5,2^32-2,2^32-1} up to the tier's length, seeded random up to 40 ops, long sets (10 and more strided entries low or right below 2^32-1, inserted singly or through AddSet arguments of up to 20 ranges, ascending or shuffled, with * or n:*, then wide insertions next to entries, at 2^32-1 or *); ParseSet on all strings over {0,1,9,:,,,*} up to the tier's length plus corpus, mutated valid sets and the long value lists as text. Non-trivial = an insertion merged or split ranges (range count did not grow by the number of ranges inserted), or a valid parse input with ':' or ','; distinct by (flavour, ops) / text.")
 
 	if h.Replay != "" {
 		var c struct {
@@ -751,6 +925,15 @@ func runC15(h *H) {
 		}
 		r.runOps(i%3, ops, "random")
 	}
+	// 3b. long sets: many entries, AddSet arguments of many ranges, wide insertions over them
+	var longTexts []string
+	for i := 0; i < h.Pick(120, 2000); i++ {
+		ops := r.longOps()
+		r.runOps(i%3, ops, "long")
+		if i%3 == 0 {
+			longTexts = append(longTexts, opsText(ops))
+		}
+	}
 	// 4. parser
 	for _, t := range []string{"", "*", "1", "0", "01", "1:", ":1", "1,,2", "1,", ",1", "4294967295", "4294967296", "99999999999999999999",
 		"4294967295:*", "*:4294967295", "*:*", "3:1", "1:2:3", "1:2,2:3,10", "+1", "-1", "1_0", " 1", "1 ", "1:*,*", "$", "1:4294967295",
@@ -777,6 +960,10 @@ func runC15(h *H) {
 			t = t + ":*"
 		}
 		r.runParse(t, "overflow")
+	}
+	// the same long value lists as text
+	for _, t := range longTexts {
+		r.runParse(t, "long")
 	}
 	alpha := []byte("019:,*")
 	plen := h.Pick(4, 6)
